@@ -216,6 +216,17 @@ def t_empty_query_fragment(s, draw):
     return s
 
 
+def t_empty_query_item(s, draw):
+    """candidate only (C03): an empty item '&&' — not claimed to be a spelling by any statement"""
+    if not s.get("query"):
+        return None
+    s = copy.deepcopy(s)
+    items = list(s["query"])
+    items.insert(draw(st.integers(0, len(items))), ["", None])
+    s["query"] = items
+    return s
+
+
 SPELLING = {
     "scheme-case": t_scheme_case,
     "host-case": t_host_case,
